@@ -45,6 +45,13 @@ class Live:
         built = B.build(prog, stream_kwargs={"asynchronous": True})
         self.prog = [dict(n) for n in prog]
         self.names = {i: built.nodes[i] for i in range(1, len(prog) + 1)}
+        # what any program does with its nodes -- print them, hash them, compare them -- must not keep them alive
+        for n_ in self.names.values():
+            str(n_), repr(n_), hash(n_), n_ == n_, "%s" % (n_,)
+            try:
+                n_._repr_html_() if hasattr(n_, "_repr_html_") else None
+            except Exception:
+                pass
         self.weak = {i: weakref.ref(built.nodes[i]) for i in range(1, len(prog) + 1)}
         self.sink_out = built.sink_out
         built.nodes = None
